@@ -197,14 +197,20 @@ def cargo_build():
 def run_lines(binary, args, lines, timeout=3000, env=None):
     """Feed scenario lines, return {scenario: observation}."""
     inp = "\n".join(lines) + "\n"
-    p = subprocess.run([binary] + args, input=inp, capture_output=True, text=True, timeout=timeout,
-                       env=env or env_offline())
+    try:
+        p = subprocess.run([binary] + args, input=inp, capture_output=True, text=True, timeout=timeout,
+                           env=env or env_offline())
+        out, rc, err = p.stdout, p.returncode, p.stderr
+    except subprocess.TimeoutExpired as e:
+        # the program hung for good: keep what it printed; the lines without an observation are reported as missing
+        out = e.stdout.decode(errors="replace") if isinstance(e.stdout, bytes) else (e.stdout or "")
+        rc, err = 124, f"timeout after {timeout}s"
     res = {}
-    for l in p.stdout.splitlines():
+    for l in out.splitlines():
         if " => " in l:
             k, v = l.rsplit(" => ", 1)
             res[k] = v
-    return res, p.returncode, p.stderr
+    return res, rc, err
 
 
 def chunked(lines, n):
